@@ -138,6 +138,8 @@ class K:
         return 0
 
     def __repr__(self):
+        if _common.SYMBOLIC:
+            return 'K(?)'           # never format a symbolic payload
         return 'K(%r)' % (self.v,)
 
 
